@@ -14,6 +14,7 @@ outcome `unspecified`, and the correspondence run skips (and counts) such cases.
 import ZnVerif.Model.Ast
 import ZnVerif.Model.Num
 import ZnVerif.Model.IdMatch
+import ZnVerif.Spec.TextMethods
 
 namespace ZnVerif.Spec
 open ZnVerif.Model (Expr Stmt ExecBlock Program Ident NumOps)
@@ -335,7 +336,61 @@ def knownMethods : SVal ν → List String
   | _ => []
 
 def isMutator (m : String) : Bool :=
-  ["新增", "添加", "前增", "后增", "左移", "右移", "合并", "交换", "写入", "移除", "自增", "自减"].contains m
+  ["新增", "添加", "前增", "后增", "左移", "右移", "合并", "交换", "写入", "移除", "自增", "自减", "转换数值"].contains m
+
+/-- the text whose characters are these code points -/
+def cpsStr (l : List Nat) : String := String.ofList (l.map Char.ofNat)
+
+def allTexts (xs : List (SVal ν)) : Option (List String) :=
+  xs.mapM fun x => match x with | .str t => some t | _ => none
+
+/-- an exception raised by a built-in method itself; its message is the implementation's (like a runtime fault's) -/
+def builtinException {α} : SM ν α := fault 0
+
+/-- the non-mutating methods of a text (Spec/TextOps.lean, Spec/TextMethods.lean: on its characters): a wrong number of
+arguments is error 53, an argument of the wrong type error 82 -/
+def textPure (s : String) (m : String) (args : List (SVal ν)) : SM ν (SVal ν) :=
+  let t := strCps s
+  let oneText (k : String → SM ν (SVal ν)) : SM ν (SVal ν) :=
+    match args with
+    | [.str a] => k a
+    | [_] => fault 82
+    | _ => fault 53
+  match m with
+  | "替换" =>
+    match args with
+    | [.str o, .str nw] => pure (.str (cpsStr (TextOps.replaceAll t (strCps o) (strCps nw))))
+    | [_, _] => fault 82
+    | _ => fault 53
+  | "分隔" => oneText fun sep => pure (.list ((TextOps.split t (strCps sep)).map fun p => .str (cpsStr p)))
+  | "匹配" => oneText fun u => pure (.bool (TextOps.occursIn (strCps u) t))
+  | "匹配开头" => oneText fun u => pure (.bool (TextOps.startsWith t (strCps u)))
+  | "匹配结尾" => oneText fun u => pure (.bool (TextOps.endsWith t (strCps u)))
+  | "取样" =>
+    match args with
+    | [.num i, .num j] =>
+      match TextOps.slice t (NumOps.toInt i) (NumOps.toInt j) with
+      | .ok r => pure (.str (cpsStr r))
+      | .error _ => builtinException
+    | [_, _] => fault 82
+    | _ => fault 53
+  | "去除空格" => pure (.str (cpsStr (TextOps.trim t)))
+  | "转小写-英文" => match TextOps.toLower t with | some r => pure (.str (cpsStr r)) | none => unspec
+  | "转大写-英文" => match TextOps.toUpper t with | some r => pure (.str (cpsStr r)) | none => unspec
+  | "格式化" =>
+    match allTexts args with
+    | some vs => pure (.str (cpsStr (TextOps.fill t (vs.map strCps))))
+    | none => fault 82
+  | _ => if (knownMethods (SVal.str s : SVal ν)).contains m then unspec else fault 46
+
+/-- 转换数值: (the text its receiver holds afterwards, the number).  The first `*^`, then the first `*10^`, of the receiver
+become `e` (`numberRewrite`) and stay so; what a text that is no numeral holds after the failed attempt is left open -/
+def textToNumber (s : String) : SM ν (SVal ν × SVal ν) :=
+  let t := TextOps.numberRewrite (strCps s)
+  match TextOps.numeralKind t with
+  | .decimal => pure (.str (cpsStr t), .num (NumOps.parse t))
+  | .malformed => if t = strCps s then builtinException else unspec
+  | .open_ => unspec
 
 /-- run `f` over the elements until it answers true (stop) -/
 def untilS {α} (f : α → SM ν Bool) : List α → SM ν Unit
@@ -652,6 +707,7 @@ def builtinPure : Nat → SVal ν → String → List (SVal ν) → SM ν (SVal 
       if ys.all (fun y => match y with | .str _ => true | _ => false) then
         pure (.str (ys.foldl (fun acc y => match y with | .str t => acc ++ t | _ => acc) s))
       else fault 82
+    | .str s, _, _ => textPure s m args
     | _, _, _ =>
       -- a method the type does not have is an error (46); a documented one not specified here is left open
       if (knownMethods recv).contains m then unspec else fault 46
@@ -682,6 +738,7 @@ def builtinMut (recv : SVal ν) (m : String) (args : List (SVal ν)) : SM ν (SV
   -- numbers are changed in place by 自增 / 自减 (the receiver afterwards holds the sum / difference, which is also the result)
   | .num x, "自增", [.num y] => pure (.num (NumOps.add x y), .num (NumOps.add x y))
   | .num x, "自减", [.num y] => pure (.num (NumOps.sub x y), .num (NumOps.sub x y))
+  | .str s, "转换数值", _ => textToNumber s
   | _, _, _ => unspec
 
 /-- run a body (method / program): inputs bound in order as constants, handlers, result -/
